@@ -257,12 +257,60 @@ pub fn vr_case(s: &mut Session, explicit: Option<u16>, v: &w::gpos::ValueRecord)
     s.oracle("value-record-size", size == t.value_format().record_byte_len() && bytes.len() >= 6 + size, || format!("{v:?}"), || format!("encoded_size {size} vs record_byte_len {}", t.value_format().record_byte_len()));
 }
 
+/// correspondence with the SinglePos part of Model/ValueRecord.lean: a compiled SinglePos subtable (either format) read by
+/// the real generated reader + the hand-written record conversions vs `readSP1` / `readSP2`
+pub fn sp_case(s: &mut Session, sp: &w::gpos::SinglePos) {
+    use read_fonts::{FontData, FontRead};
+    let Ok(Ok(bytes)) = catch(|| write_fonts::dump_table(sp)) else { return };
+    let Ok(t) = r::gpos::SinglePos::read(FontData::new(&bytes)) else { return };
+    let Ok(back) = w::gpos::SinglePos::read(FontData::new(&bytes)) else { return };
+    let raw = |x: Option<i16>| opt(x.map(|v| v as u16));
+    let show = |b: &w::gpos::ValueRecord, rec: &r::gpos::ValueRecord| {
+        let offs = [
+            rec.x_placement_device.get().offset().to_u32(),
+            rec.y_placement_device.get().offset().to_u32(),
+            rec.x_advance_device.get().offset().to_u32(),
+            rec.y_advance_device.get().offset().to_u32(),
+        ];
+        let dev = |present: bool, i: usize| if present { offs[i].to_string() } else { "-".into() };
+        format!(
+            "{} {} {} {} {} {} {} {} {}",
+            b.format().bits(), raw(b.x_placement), raw(b.y_placement), raw(b.x_advance), raw(b.y_advance),
+            dev(b.x_placement_device.is_some(), 0), dev(b.y_placement_device.is_some(), 1),
+            dev(b.x_advance_device.is_some(), 2), dev(b.y_advance_device.is_some(), 3)
+        )
+    };
+    let resp = match (&t, &back) {
+        (r::gpos::SinglePos::Format1(t), w::gpos::SinglePos::Format1(b)) => {
+            format!("1 {} {} | {} | 1", t.coverage_offset().to_u32(), t.value_format().bits(), show(&b.value_record, &t.value_record()))
+        }
+        (r::gpos::SinglePos::Format2(t), w::gpos::SinglePos::Format2(b)) => {
+            let recs: Vec<String> = b.value_records.iter().zip(t.value_records().iter()).filter_map(|(b, r)| r.ok().map(|r| show(b, &r))).collect();
+            format!(
+                "2 {} {} {} | {} | 1",
+                t.coverage_offset().to_u32(), t.value_format().bits(), t.value_count(),
+                if recs.is_empty() { "-".to_string() } else { recs.join(";") }
+            )
+        }
+        _ => return,
+    };
+    if bytes.len() <= 4000 {
+        s.case("sp", format!("sp {}", hex(&bytes)), resp);
+    }
+}
+
 /// GPOS subtables: all 256 value formats, anchors of every format, mark attachment tables
 fn gpos_subtables(s: &mut Session, cx: &mut Ctx, d: &mut D) {
     use w::gpos::*;
     for mask in 0..256u32 {
         let l = format!("dx:vf={mask:#010b}");
         rt!(s, cx, "SinglePos", SinglePos, r::gpos::SinglePos, &l, &SinglePos::format_1(d.cov(1), d.value_record(mask, false)));
+        sp_case(s, &SinglePos::format_1(d.cov(2), d.value_record(mask, false)));
+        sp_case(s, &SinglePos::format_1(d.cov(1), d.value_record(mask, true)));
+        {
+            let n = (mask % 4) as usize;
+            sp_case(s, &SinglePos::format_2(d.cov(n), (0..n).map(|_| d.value_record(mask, false)).collect()));
+        }
         vr_case(s, Some(mask as u16), &d.value_record(mask, false));
         vr_case(s, Some(mask as u16), &d.value_record(mask, true));
         {
